@@ -306,15 +306,23 @@ def shard_dts(arg) -> E.Tally:
     for _ in range(n):
         t.n += 1
         want = x.strftime("%y-%m-%dT%H:%M:%S")
-        hx = h.hex_from_dts(x)
+        try:
+            hx = h.hex_from_dts(x)
+        except Exception as e:  # noqa: BLE001
+            hx = f"raised {type(e).__name__}: {e}"
         try:
             got = h.hex_to_dts(hx)
         except Exception as e:  # noqa: BLE001
             got = f"raised {type(e).__name__}: {e}"
         if got != want or len(hx) != 12:
             t.bad("C04:dts:not-preserved", f"{want} -> {hx} -> {got}", {"fn": "dts", "iso": x.isoformat()})
-        elif h.hex_from_dts(got) != hx:
-            t.bad("C04:dts:not-reencoded", f"{hx} -> {got} -> {h.hex_from_dts(got)}", {"fn": "dts", "iso": x.isoformat()})
+        else:
+            try:
+                hx2 = h.hex_from_dts(got)  # (the decoder's own text form is also an accepted input of the encoder)
+            except Exception as e:  # noqa: BLE001
+                hx2 = f"raised {type(e).__name__}: {e}"
+            if hx2 != hx:
+                t.bad("C04:dts:not-reencoded", f"{hx} -> {got} -> {hx2}", {"fn": "dts", "iso": x.isoformat()})
         x += step
         if x.year > 2099:
             break
